@@ -63,7 +63,7 @@ def direct_calls(M, rec, rng, reps):
         s = lambda x: shp(x, smode)  # noqa: E731
         p = link_pars(rng)
         T = rng.choice((T0, T0, 5 / 3600, 15 / 3600, 1.5))
-        N = rng.choice((1, 1, 2, 3, 5))
+        N = rng.choice((1, 1, 2, 3, 5, 9))
         rho = [rho_val(rng, p) for _ in range(N)]
         v = [v_val(rng, p) for _ in range(N)]
         intmode = side == "numpy" and rng.random() < 0.15
@@ -214,11 +214,49 @@ def direct_calls(M, rec, rng, reps):
                           {"primitive": prim, "side": side, "exception": repr(e)[:300]})
 
 
+def vsl_layouts(M, rec, rng, nmax, k=0, n=1):
+    """Every set of speed-limited segments of a link with <= nmax segments (2^N layouts each), on both
+    engines, with a distinct and binding limit on every sign: the shadow evaluation compares the engines,
+    and the layout itself (which segments are limited) is compared with the plain formula."""
+    import sym_metanet.engines.casadi as EC
+    import sym_metanet.engines.numpy as EN
+
+    i = 0
+    for N in range(1, nmax + 1):
+        for mask in range(2 ** N):
+            i += 1
+            if i % n != k:
+                continue
+            vsl = [j for j in range(N) if mask >> j & 1]
+            p = link_pars(rng)
+            rho = [rng.uniform(2, p["rho_crit"]) for _ in range(N)]
+            alpha = rng.choice((0.0, 0.1))
+            Ve = [R.veq(x, p["v_free"], p["rho_crit"], p["a"]) for x in rho]
+            vc = [Ve[j] * rng.uniform(0.3, 0.8) / (1 + alpha) for j in vsl]
+            exp = list(Ve)
+            for j, c in zip(vsl, vc):
+                exp[j] = min(Ve[j], (1 + alpha) * c)
+            for side, E in (("numpy", EN), ("casadi", EC)):
+                rec.count("vsl_layout_calls")
+                try:
+                    out = E.LinksEngine.controlled_Veq(vec(rho, side), vec(vc, side), list(vsl), alpha, p["v_free"], p["rho_crit"], p["a"])
+                    got = [float(t) for t in np.asarray(out, dtype=float).ravel()]
+                except Exception as e:
+                    rec.violation(f"{PROP}:controlled_Veq: {side} implementation raised {type(e).__name__} for a set of limited segments",
+                                  {"side": side, "segments": N, "limited": vsl, "exception": repr(e)[:300]})
+                    continue
+                if len(got) != N or any(abs(a - b) > 1e-9 * (1 + abs(b)) for a, b in zip(got, exp)):
+                    rec.violation(f"{PROP}:controlled_Veq: {side} result is not min(Veq, (1+alpha) limit) on exactly the limited segments",
+                                  {"side": side, "segments": N, "limited": vsl, "got": got, "expected": exp})
+    rec.extra["exhaustive_vsl_layouts_up_to_segments"] = nmax
+
+
 def run(M, rec, tier, seed, k, n):
     np.seterr(all="ignore")
     rng = random.Random(seed * 1000 + k + 1500)
     mon = primmon.PrimMonitor(M, rec, PROP).install()
     try:
+        vsl_layouts(M, rec, rng, 8 if tier == "quick" else 12, k, n)
         direct_calls(M, rec, rng, 12000 if tier == "quick" else 150000)
         W.numpy_steps(M, rec, rng, 150 if tier == "quick" else 1500, draws=2)
     finally:
@@ -246,7 +284,8 @@ def finish(M, rec, write=True):
         "CasADi with DM) with boundary values (zero, critical, jam, above jam, standstill, infinite limits, exact ties), every "
         "flow-equation variant and optional-argument combination, + NumPy network steps (element-layer shapes); every call "
         "shadow-evaluated by the other engine; distinct = (primitive, argument shape tuple) pairs + reference branches + "
-        "optional-argument combinations observed",
+        "optional-argument combinations observed; + every set of limited segments on links of up to "
+        "coverage.exhaustive_vsl_layouts_up_to_segments segments (distinct binding limits) on both engines against min(Veq,(1+alpha)limit)",
         assumptions=["DM evaluation of the CasADi primitives stands for their SX/MX expressions (C03 checks compiled functions)"],
         write=write,
     )
